@@ -94,6 +94,18 @@ type Op struct {
 	Then string `json:"then,omitempty"`
 	A2   string `json:"a2,omitempty"`
 	B2   string `json:"b2,omitempty"`
+	// Raw (delete only): right before the operation the stored data of the record is replaced,
+	// behind the store's back, by data that does not decode into the store's type (as left by
+	// another version of the program). The delete is refused, or it is a delete like any other.
+	Raw bool `json:"raw,omitempty"`
+}
+
+// rawKey is the database key of a record.
+func (m *machine) rawKey(id string) []byte {
+	if m.cfg.Prefix == "" {
+		return []byte(id)
+	}
+	return []byte(m.cfg.Prefix + "." + id)
 }
 
 // Cfg is the machine configuration.
@@ -410,7 +422,30 @@ func runSequential(c Case) (r seqResult) {
 				op.Then = ""
 			}
 			_, exists0 := model[op.ID]
-			if op.K == "init" {
+			rawDone := false
+			if op.K == "delete" && op.Raw && exists0 {
+				m.qs.Flush()
+				key := m.rawKey(op.ID)
+				if err := m.db.Update(func(txn *badger.Txn) error { return txn.Set(key, []byte(`{"a":5,"b":[]}`)) }); err != nil {
+					r.c13 = "VERIF-INCONCLUSIVE: " + err.Error()
+					r.c14 = r.c13
+					return
+				}
+				if err := m.mutate(op); err != nil {
+					// refused: the record stays (its data is put back, for the operations that follow)
+					prev := model[op.ID]
+					if err := m.db.Update(func(txn *badger.Txn) error { return txn.Set(key, []byte(recJSON(prev))) }); err != nil {
+						r.c13 = "VERIF-INCONCLUSIVE: " + err.Error()
+						r.c14 = r.c13
+						return
+					}
+					continue
+				}
+				// made: a delete like any other (below), the store call itself is done
+				rawDone = true
+			}
+			if rawDone {
+			} else if op.K == "init" {
 				// Store.Init offering this id as a seed: creates it the first time Init runs,
 				// unless the id exists already; otherwise nothing happens
 				// Then "race": a Create of the same id (A2, B2) from another goroutine commits
